@@ -148,7 +148,7 @@ pub fn class_name(class: u8) -> &'static str {
     }
 }
 
-const SCALES: [f64; 10] = [1e-5, 1e-4, 1e-3, 0.1, 1.0, 3.7, 12.5, 1e3, 1.2345e4, 1e6];
+const SCALES: [f64; 11] = [1e-8, 1e-5, 1e-4, 1e-3, 0.1, 1.0, 3.7, 12.5, 1e3, 1.2345e4, 1e6];
 
 /// Pure mapping raw -> values (all finite). `integer`: only integer values; `f32ok`: values exactly
 /// representable in f32 with exact small sums.
@@ -204,14 +204,14 @@ pub fn values_of(rs: &RawSeries, integer: bool, f32ok: bool) -> (Vec<f64>, &'sta
             }
         },
         3 => {
-            let s = SCALES[(rs.cparam % 10) as usize];
+            let s = SCALES[(rs.cparam % 11) as usize];
             for (a, _) in &rs.raw {
                 out.push(*a as f64 / RAW_MAX as f64 * s);
             }
         },
         7 => {
-            let s = SCALES[(rs.cparam % 10) as usize];
-            let off = ((rs.cparam / 10) as f64 - 12.5) / 1.25 * s; // |off/s| <= 10
+            let s = SCALES[(rs.cparam % 11) as usize];
+            let off = ((rs.cparam / 11) as f64 - 11.5) / 1.15 * s; // |off/s| <= 10
             for (a, _) in &rs.raw {
                 out.push(off + *a as f64 / RAW_MAX as f64 * s);
             }
